@@ -93,6 +93,27 @@ func readCounterOf(c prometheus.Counter) float64 {
 
 var errLoad = errors.New("verif: loader error")
 
+// cleanGate stands between the cleaner and a real cache (Cache.tla with SplitCleanup = TRUE): while `on`, the cleaner's
+// call of this bucket's Cleanup parks before it reaches the cache, so that the schedule can put lookups, loader ends
+// and releases between markStale and the visit of each bucket. Everything is passed on to the real cache.
+type cleanGate struct {
+	c       *cache.Cache[string]
+	on      atomic.Bool
+	entered chan struct{}
+	gate    chan struct{}
+}
+
+func (g *cleanGate) SetGeneration(gen *cache.Generation) { g.c.SetGeneration(gen) }
+func (g *cleanGate) Cleanup() uint64 {
+	if g.on.Load() {
+		g.entered <- struct{}{}
+		<-g.gate
+	}
+	return g.c.Cleanup()
+}
+func (g *cleanGate) Released() bool              { return g.c.Released() }
+func (g *cleanGate) Reset(gen *cache.Generation) { g.c.Reset(gen) }
+
 func run(c *Case) {
 	limit := uint64(*limitU * unit)
 	cl := cache.NewCleaner(limit, nil)
@@ -106,10 +127,61 @@ func run(c *Case) {
 			maxC = 3
 		}
 	}
+	split := false
+	for _, s := range c.Hist {
+		if s.Op == "markstale" {
+			split = true
+		}
+	}
+	gates := make([]*cleanGate, nc+1)
+	managed := func(i int) any {
+		if split {
+			return gates[i]
+		}
+		return caches[i]
+	}
 	for i := 1; i <= maxC; i++ {
 		m, w := metrics()
-		caches[i] = cache.NewCache[string](cl, m)
+		if split {
+			caches[i] = cache.NewCache[string](nil, m)
+			gates[i] = &cleanGate{c: caches[i], entered: make(chan struct{}, 1), gate: make(chan struct{})}
+			cl.AddBucket(gates[i])
+		} else {
+			caches[i] = cache.NewCache[string](cl, m)
+		}
 		waitsOf[i] = w
+	}
+	// a cleaning pass in steps: the cleaner's goroutine is parked in front of bucket `parkedAt` (0: not parked)
+	cleaning := false
+	parkedAt := 0
+	var cleanDone chan struct{}
+	nextPark := func() string {
+		cases := []chan struct{}{}
+		for i := 1; i <= maxC; i++ {
+			cases = append(cases, gates[i].entered)
+		}
+		deadline := time.After(90 * time.Second)
+		for {
+			for i, ch := range cases {
+				select {
+				case <-ch:
+					parkedAt = i + 1
+					return "parked"
+				default:
+				}
+			}
+			select {
+			case <-cleanDone:
+				cleaning, parkedAt = false, 0
+				for i := 1; i <= maxC; i++ {
+					gates[i].on.Store(false)
+				}
+				return "done"
+			case <-deadline:
+				return "stuck"
+			case <-time.After(50 * time.Microsecond):
+			}
+		}
 	}
 	if *fillers > 0 {
 		// not part of the model: tiny entries (1 byte against units of 1 MiB) in the oldest generation. They change
@@ -177,7 +249,7 @@ func run(c *Case) {
 		return false
 	}
 	checkInv := func(i int, afterCleanup bool) bool {
-		if busy() {
+		if busy() || cleaning {
 			return true
 		}
 		evals.Add(1)
@@ -188,7 +260,7 @@ func run(c *Case) {
 			}
 			_, sz := caches[ci].VerifLive()
 			live += sz
-			if !cl.VerifManages(caches[ci]) {
+			if !cl.VerifManages(managed(ci)) {
 				fail(i, fmt.Sprintf("live cache %d is no longer managed by the cleaner (bucket list has %d entries)", ci, cl.VerifBuckets()))
 				return false
 			}
@@ -307,6 +379,35 @@ func run(c *Case) {
 				return
 			}
 			continue
+		case "markstale":
+			for ci := 1; ci <= maxC; ci++ {
+				gates[ci].on.Store(true)
+			}
+			cleaning = true
+			cleanDone = make(chan struct{})
+			go func(done chan struct{}) {
+				cl.Cleanup(&cache.CleanStat{})
+				close(done)
+			}(cleanDone)
+			if nextPark() == "stuck" {
+				fail(i, "Cleaner.Cleanup neither reached a bucket nor returned within 90 s")
+				return
+			}
+		case "cleanbucket":
+			if !cleaning {
+				// the real pass found nothing to do (size not over the limit): a waiter that the model sends back to idle
+				// retries on the real cache and may sit in a loader of its own, so the real sizes can be smaller
+				continue
+			}
+			if parkedAt != s.A {
+				fail(i, fmt.Sprintf("the cleaning pass is in front of bucket %d, Cache.tla visits bucket %d next", parkedAt, s.A))
+				return
+			}
+			gates[s.A].gate <- struct{}{}
+			if nextPark() == "stuck" {
+				fail(i, fmt.Sprintf("Cleaner.Cleanup did not come back from bucket %d within 90 s", s.A))
+				return
+			}
 		case "cleanempty":
 			cl.CleanEmptyGenerations()
 		case "release":
@@ -358,6 +459,16 @@ func run(c *Case) {
 		}
 		if !running {
 			break
+		}
+	}
+	// a cleaning pass the schedule left in the middle runs to its end
+	for cleaning {
+		if parkedAt != 0 {
+			gates[parkedAt].gate <- struct{}{}
+		}
+		if nextPark() == "stuck" {
+			fail(len(c.Hist), "Cleaner.Cleanup did not finish within 90 s")
+			return
 		}
 	}
 	checkInv(len(c.Hist), false)
